@@ -889,3 +889,8 @@ mod process_inbound_events_tests;
 #[cfg(test)]
 #[path = "raft_test/raft_comprehensive_tests.rs"]
 mod raft_comprehensive_tests;
+
+/// Accessors for out-of-tree Kani harnesses; compiled only under `--cfg kani`.
+#[cfg(kani)]
+#[path = "verif_hooks_raft.rs"]
+mod verif_hooks_raft;
